@@ -1,5 +1,7 @@
 //! tlsverif: conformance harness binding the TLA+ specification to the compiled crate.
 mod calls;
+mod consts;
+mod registry;
 mod defrag;
 mod fuzz;
 mod observe;
@@ -81,6 +83,8 @@ fn main() {
         "fuzz" => fuzz::cmd_fuzz(&args[2..]),
         "defrag" => defrag::cmd_defrag(&args[2..]),
         "defrag-fuzz" => defrag::cmd_defrag_fuzz(&args[2..]),
+        "sweep-ciphers" => sweeps::cmd_ciphers(&args[2..]),
+        "sweep-registry" => registry::cmd_registry(&args[2..]),
         "sweep-sites" => sweeps::cmd_sites(&args[2..]),
         "states-sweep" => states::cmd_sweep(&args[2..]),
         "states-run" => states::cmd_run(&args[2..]),
